@@ -4,6 +4,7 @@
 package snaps
 
 import (
+	"github.com/tidwall/pretty"
 	"encoding/json"
 	"fmt"
 	"os"
@@ -173,6 +174,38 @@ func genC19(t *rapid.T) c19Case {
 	return c
 }
 
+// canonicalJSONText: the document formatted by tidwall/pretty (the dependency go-snaps formats JSON with) under the given
+// options; nil = the library's defaults (sorted keys, one blank of indent, no width). Without the final newline.
+func canonicalJSONText(doc []byte, o *JSONCfg) string {
+	po := &pretty.Options{SortKeys: true, Indent: " "}
+	if o != nil {
+		po = &pretty.Options{SortKeys: o.SortKeys, Indent: o.Indent, Width: o.Width}
+	}
+	return strings.TrimSuffix(string(pretty.PrettyOptions(doc, po)), "\n")
+}
+
+func checkStandaloneFileOpt(call Call, data string, o *JSONCfg) error {
+	if err := checkStandaloneFile(call, data); err != nil {
+		return err
+	}
+	if call.API != "sjson" || len(call.Matchers) > 0 {
+		return nil
+	}
+	// "the canonical pretty JSON": for a Go value, its standard encoding (encoding/json) formatted; for text, the text formatted
+	src := []byte(call.Doc)
+	if call.Form == "value" {
+		b, err := json.Marshal(jsonValueOf(string(call.Doc)))
+		if err != nil {
+			return nil
+		}
+		src = b
+	}
+	if want := canonicalJSONText(src, o); data != want {
+		return fmt.Errorf("file holds %q, the canonical pretty JSON of the input (form %s) is %q", clip(data), call.Form, clip(want))
+	}
+	return nil
+}
+
 func checkStandaloneFile(call Call, data string) error {
 	switch call.API {
 	case "ssnap":
@@ -247,7 +280,7 @@ func checkC19(c c19Case) error {
 		if !ok {
 			return fmt.Errorf("standalone call %d (%s) did not create %q; directory has %v", i+1, cc.Call.API, slots[i].file, keysOfState(st))
 		}
-		if err := checkStandaloneFile(cc.Call, f.Data); err != nil {
+		if err := checkStandaloneFileOpt(cc.Call, f.Data, c.Cfg.JSON); err != nil {
 			return fmt.Errorf("standalone call %d, file %q: %v", i+1, slots[i].file, err)
 		}
 	}
@@ -335,7 +368,7 @@ func checkC19(c c19Case) error {
 		if cc.New != nil {
 			call = *cc.New
 		}
-		if err := checkStandaloneFile(call, after[slots[i].file].Data); err != nil {
+		if err := checkStandaloneFileOpt(call, after[slots[i].file].Data, c.Cfg.JSON); err != nil {
 			return fmt.Errorf("after update, standalone file %q (call %d): %v", slots[i].file, i+1, err)
 		}
 		if cc.New == nil && !after[slots[i].file].Mtime.Equal(before[slots[i].file].Mtime) {
